@@ -28,15 +28,18 @@ def wait_obls(tier, timed):
             uws += ["ABTI_waitlist_wait_timedout_and_unlock.0:4", "ABTI_waitlist_wait_timedout_and_unlock.1:3"]
         else:
             uws += ["ABTI_waitlist_wait_and_unlock.1:3", "ABTI_waitlist_wait_and_unlock.0:3", "ABTD_futex_wait_and_unlock.0:2"]
-        o.append(Obl("%s_%s" % ("timedwait" if timed else "wait", fen), "C05/wait.c",
-                     "%s by %s as focus, optionally behind one waiter and ahead of another (ULT / external / timed); <=2 real signal/broadcast calls and the other waiters' enqueue/timeout placed by the solver at every atomic instruction and while parked: %s" % (
-                         "ABT_cond_timedwait" if timed else "ABT_cond_wait", "a ULT" if fe == 0 else "an external thread",
-                         "TIMEDOUT only past the deadline and only if not signalled, SUCCESS iff signalled, unlink from head/middle/tail leaves the other waiters queued in order with correct tail/p_prev, later signal goes to the next waiter, returns holding the mutex" if timed else
-                         "returns only if signalled (no spurious wakeup), signal wakes exactly the head / broadcast all, a signal issued after the mutex release finds the waiter queued (atomic release-and-wait), no lost wakeup, returns holding the mutex"),
-                     real=REAL, hooks=True, defs=defs, unwind=4, unwindset=uws, cut_loops=SPIN, object_bits=12, backend="cadical",
-                     no_std=["--pointer-overflow-check", "--signed-overflow-check", "--undefined-shift-check"], encodes=ENC,
-                     bounds="focus + <=1 waiter ahead + <=1 behind; <=2 signal/broadcast; <=1 environment step per scheduling point; <=2 while parked; poll/retry loops unwound 2-4x with unwinding assertions",
-                     symbolic="kinds of the other waiters, placement and kind of every environment step, deadline, clock readings", timeout=900 if tier == "thorough" else 280, mem_gb=12))
+        for a1, a1n in [(0, "alone"), (1, "behind_ult"), (2, "behind_ext")]:
+            if fe == 1 and a1 == 1:
+                continue        # ES1 is the signaller's identity when the focus is an external thread
+            o.append(Obl("%s_%s_%s" % ("timedwait" if timed else "wait", fen, a1n), "C05/wait.c",
+                         "%s by %s as focus, optionally behind one waiter and ahead of another (ULT / external / timed); <=2 real signal/broadcast calls and the other waiters' enqueue/timeout placed by the solver at every atomic instruction and while parked: %s" % (
+                             "ABT_cond_timedwait" if timed else "ABT_cond_wait", "a ULT" if fe == 0 else "an external thread",
+                             "TIMEDOUT only past the deadline and only if not signalled, SUCCESS iff signalled, unlink from head/middle/tail leaves the other waiters queued in order with correct tail/p_prev, later signal goes to the next waiter, returns holding the mutex" if timed else
+                             "returns only if signalled (no spurious wakeup), signal wakes exactly the head / broadcast all, a signal issued after the mutex release finds the waiter queued (atomic release-and-wait), no lost wakeup, returns holding the mutex"),
+                         real=REAL, hooks=True, defs=defs + ["A1=%d" % a1], unwind=4, unwindset=uws, cut_loops=SPIN, object_bits=12, backend="cadical",
+                         no_std=["--pointer-overflow-check", "--signed-overflow-check", "--undefined-shift-check"], encodes=ENC,
+                         bounds="focus + <=1 waiter ahead + <=1 behind; <=2 signal/broadcast; <=1 environment step per scheduling point; <=2 while parked; poll/retry loops unwound 2-4x with unwinding assertions",
+                         symbolic="kinds of the other waiters, placement and kind of every environment step, deadline, clock readings", timeout=900 if tier == "thorough" else 280, mem_gb=12))
     # nesting depth 2 is not offered here: the environment programs of this harness are not re-entrant (a nested step would re-run a
     # step that is in progress) and the runs exceed the thorough budget (measured: no verdict in 900 s)
     return o
